@@ -128,7 +128,7 @@ func checkC12(w *World, r *Report) {
 
 	// "once an auction has opened nobody can cancel it": opening is done by the block hook that runs before the block's
 	// transactions (BeginBlock), for StartTime ≤ BlockTime — otherwise a cancel in the opening block still sees StandBy
-	r.Sub(checkC08, "BB-BEGIN", "BB-EVERY", "TIME-POL")
+	r.SubWhere(checkC08, perRule(map[string]func(string, string) bool{"TIME-POL": keepPrefix("open:block-hook")}), "BB-BEGIN", "BB-EVERY", "TIME-POL")
 	// the cancelled record is written back under its own id: every stored auction's Id is its store key
 	r.Sub(checkC19, "KV-AGREE")
 
